@@ -24,6 +24,7 @@ import numpy as np
 from hypothesis import strategies as st
 
 from vp import sut
+from vp.gens import weighted
 
 ID = "C18"
 LEVEL = "exploration"
@@ -488,10 +489,215 @@ def _cos(draw, tier):
             "form": draw(st.integers(0, 2))}
 
 
+# ---- real-data scale (CHECK_AUTHOR_GUIDE item 7): one long trace per case, one sub-function per case --------------
+#
+# Lengths of 2^16 .. 2^21 (+ 2^16) samples: powers of two, 10^5 / 10^6 / 2 10^6 and their neighbours, primes and twice
+# primes next to them, random lengths. Positions of what matters (taps of the sparse operand of a convolution, impulses of the
+# filtered trace, requested DFT coefficients, the first and last bin / sample of a cosine taper) on and next to multiples of
+# 2^10 .. 2^20 and 10^3 .. 10^6, at both ends, and at random. Every oracle is O(n) or one numpy FFT.
+
+SCALE_MIN = 2 ** 16
+SCALE_MAX = 2 ** 21 + 2 ** 16
+_SCALE_BASES = [2 ** 16, 2 ** 17, 2 ** 18, 2 ** 19, 2 ** 20, 2 ** 20, 2 ** 20, 2 ** 20, 2 ** 21, 2 ** 21, 3 * 2 ** 19, 3 * 2 ** 19,
+                10 ** 5, 5 * 10 ** 5, 10 ** 6, 10 ** 6, 10 ** 6, 10 ** 6, 2 * 10 ** 6, 2 * 10 ** 6, 15 * 10 ** 5]
+# lengths for the functions that work on half spectra (fscale, freduce, fexpand): n // 2 + 1 bins cross the same seams
+_SCALE_BASES_HALF = [2 ** 17, 2 ** 19, 2 ** 20, 2 ** 20, 10 ** 6, 10 ** 6, 2 ** 21, 2 ** 21, 2 ** 21, 2 ** 21, 2 * 10 ** 6,
+                     2 * 10 ** 6, 2 * 10 ** 6, 2 * 10 ** 6, 2 ** 22, 2 ** 22, 4 * 10 ** 6, 3 * 2 ** 20, 3 * 10 ** 6]
+SCALE_MAX_HALF = 2 ** 22 + 2 ** 16
+_SCALE_SEAMS = [2 ** 10, 2 ** 12, 2 ** 14, 2 ** 16, 2 ** 17, 2 ** 18, 2 ** 19, 2 ** 20, 2 ** 20,
+                10 ** 3, 10 ** 4, 10 ** 5, 10 ** 6, 10 ** 6]
+_R64 = st.sampled_from(range(64))
+
+
+def _fft_cost(n):
+    """sum of the prime factors of n (with multiplicity): numpy's FFT of length n costs about n times this"""
+    tot, p = 0, 2
+    while p * p <= n:
+        while n % p == 0:
+            n //= p
+            tot += p
+        p += 1
+    return tot + (n if n > 1 else 0)
+
+
+def _smooth7_table(limit):
+    out = []
+    for p2 in (2 ** a for a in range(limit.bit_length())):
+        p3 = p2
+        while p3 <= limit:
+            p5 = p3
+            while p5 <= limit:
+                p7 = p5
+                while p7 <= limit:
+                    out.append(p7)
+                    p7 *= 7
+                p5 *= 5
+            p3 *= 3
+    return sorted(out)
+
+
+_SMOOTH7 = _smooth7_table(2 ** 23)
+
+
+def _prime_near(n, up):
+    n = max(n, 3)
+    while not _is_prime(n):
+        n += 1 if up else -1
+    return n
+
+
+def _pick(draw, seq):
+    """uniform choice from a short sequence. Measured with this harness (625 examples per shard): st.integers(0, 9) returns 0
+    in 30-55 % of the draws and st.integers / st.sampled_from over a range of 10^6 values return the smallest 3 % of the
+    range in 30-75 % of the draws (Hypothesis favours 'simple' values), sampled_from over <= 64 values is flat."""
+    return draw(st.sampled_from(seq))
+
+
+def _uniform(draw, lo, hi):
+    """an integer of lo .. hi, flat over the range: three base-64 digits and a remainder drawn from short ranges"""
+    span = hi - lo + 1
+    if span <= 64:
+        return lo + draw(st.sampled_from(range(span)))
+    u = (draw(_R64) * 64 + draw(_R64)) * 64 + draw(_R64)
+    cell = -(-span // 64 ** 3)
+    return min(hi, lo + u * span // 64 ** 3 + (draw(st.sampled_from(range(min(cell, 64)))) if cell > 1 else 0))
+
+
+@st.composite
+def _scale_len(draw, lo=SCALE_MIN, hi=SCALE_MAX):
+    c = _pick(draw, ["seam", "seam", "seam", "seam", "near", "near", "prime", "log", "any", "any"])
+    base = _pick(draw, _SCALE_BASES_HALF if hi == SCALE_MAX_HALF else _SCALE_BASES)
+    if c == "seam":
+        n = base + _pick(draw, [-2, -1, 0, 0, 1, 1, 2, 3])   # one to three samples beyond the seam: the short last block
+    elif c == "near":
+        n = base + _uniform(draw, -3000, 3000)
+    elif c == "prime":
+        p = _prime_near(base if draw(st.booleans()) else base // 2, draw(st.booleans()))
+        n = p if 2 * p > hi or draw(st.booleans()) else 2 * p
+    elif c == "log":
+        n = int(2 ** (16 + _uniform(draw, 0, 6000 if hi == SCALE_MAX_HALF else 5000) / 1000))
+    else:
+        n = _uniform(draw, lo, hi)
+    return max(lo, min(hi, n))
+
+
+@st.composite
+def _scale_pos(draw, n):
+    """a position 0 <= p < n: on / next to a multiple of a power of two or ten, at the ends, or anywhere"""
+    c = _pick(draw, ["seam"] * 6 + ["end"] + ["any"] * 3)
+    if c == "seam":
+        s = _pick(draw, [v for v in _SCALE_SEAMS if v <= n] or [1])
+        p = s * _uniform(draw, 1, max(1, n // s)) + _pick(draw, [-2, -1, -1, 0, 0, 1, 1, 2])
+    elif c == "end":
+        p = _pick(draw, [0, 1, n - 2, n - 1, n // 2, n // 2 - 1, n // 2 + 1])
+    else:
+        p = _uniform(draw, 0, n - 1)
+    return max(0, min(n - 1, p))
+
+
+@st.composite
+def _scale_conv(draw, tier):
+    op = _pick(draw, ["sparse_w", "sparse_w", "sparse_x", "sparse_x", "short"])
+    total = draw(_scale_len())          # nsx + nsw (the padded size follows from the sum)
+    if op == "short":
+        nsw = _uniform(draw, 1, 48)
+    else:
+        k = _pick(draw, ["short", "short", "mid", "long", "half"])
+        if k == "short":
+            nsw = _uniform(draw, 1, 300)
+        elif k == "mid":
+            nsw = _uniform(draw, 301, 70000)
+        elif k == "long":
+            nsw = draw(_scale_len(hi=max(SCALE_MIN, total - 1)))     # kernel of real-data scale too
+        else:
+            nsw = total // 2 + _pick(draw, [-1, 0, 1])
+    nsw = max(1, min(nsw, total - 1))
+    nsx = total - nsw
+    if op != "short" and _pick(draw, [False, False, False, True]):
+        nsx, nsw = nsw, nsx             # kernel longer than the signal
+    case = {"t": "conv", "nsx": nsx, "nsw": nsw, "xk": "vec", "nr": 0, "content": _pick(draw, CONTENTS),
+            "dtype": _pick(draw, ["f8", "f8", "f8", "f8", "f4", "i2"]),
+            "wdt": _pick(draw, ["", "", "", "f8", "f4"]), "seed": draw(_SEED),
+            "lay": _pick(draw, ["C", "C", "C", "strided", "neg"]), "ro": draw(st.booleans()), "rep": 0,
+            "layw": _pick(draw, ["C", "C", "strided"]), "form": _pick(draw, [0, 1, 2]),
+            "only": _pick(draw, ["full", "same", "same"]), "scale": "conv_" + op}
+    if op != "short":
+        m = nsw if op == "sparse_w" else nsx
+        pos = sorted({draw(_scale_pos(m)) for _ in range(_pick(draw, [1, 2, 3, 4, 5, 6]))})
+        case["sparse"] = {"on": op[-1], "pos": pos, "amp": [_pick(draw, [1, 1, -1, 2, 3, -5, 7]) for _ in pos]}
+    return case
+
+
+@st.composite
+def _scale_spec(draw, tier):
+    op = _pick(draw, ["filt", "filt", "fscale", "hermit", "hermit", "dft"])
+    n = draw(_scale_len(hi=2 ** 21 + 2 if op == "dft" else SCALE_MAX_HALF if op in ("fscale", "hermit") else SCALE_MAX))
+    if op in ("filt", "dft") and n > 2 ** 19 + 2 ** 16 and _fft_cost(n) > 120:
+        # two to four transforms per case, each 0.3 - 0.6 s at 1 - 2 10^6 samples when the length has large prime factors:
+        # those lengths stay within 2^19 + 2^16 (one in four: 2^20 + 1 -> 2^19, 10^6 + 1 -> 5 10^5) or move up to the next
+        # length without prime factors above 7 (2^20 + 1 -> 1049760, 10^6 + 1 -> 1000188: still beyond the seam); lengths with
+        # small factors (2^20 - 1, 10^6 - 1, 2^21 - 2, ...) are taken as they are
+        if _pick(draw, [True, False, False, False]):
+            while n > 2 ** 19 + 2 ** 16 and _fft_cost(n) > 120:
+                n //= 2
+        else:
+            n = _SMOOTH7[bisect.bisect_left(_SMOOTH7, n)]
+    two_d = op != "dft" and _pick(draw, [False] * 4 + [True])      # now and then two lanes, along either axis
+    pos = _pick(draw, [0, 1]) if two_d else 0
+    nh = n // 2 + 1
+    # the four corners as DFT bins: ends of the tapers on / next to the seams (at least 1 % of Nyquist apart)
+    gap = n // 200 + 2
+    ck = sorted(draw(_scale_pos(nh)) for _ in range(4))
+    ck[1] = max(ck[1], ck[0] + gap)
+    ck[3] = max(ck[3], ck[2] + gap)
+    case = {"t": "spec", "n": n, "other": [2] if two_d else [], "pos": pos, "neg": False,
+            "none": draw(st.booleans()) if pos == (1 if two_d else 0) else False, "si": draw(_SI),
+            "corners": [0, 0, 0, 0], "ck": ck, "cplx": op == "dft" and n <= 2 ** 20 + 2 and _pick(draw, [False, False, False, True]),
+            "basis": False, "seed": draw(_SEED), "lay": _pick(draw, ["C", "C", "C", "F", "strided", "neg"]),
+            "ro": draw(st.booleans()), "rep": _pick(draw, [0, 0, 0, 1]) if op in ("fscale", "hermit") else 0,
+            "dt": _pick(draw, ["f8", "f8", "f8", "f4", "i2"]), "spk": _pick(draw, ["c16", "c16", "c8", "f8"]),
+            "bk": _pick(draw, BOXES), "sik": _pick(draw, SI_KINDS), "nk": draw(_NK),
+            "omit": draw(st.booleans()), "ff": False, "typ": _pick(draw, TYPS), "ops": [op], "scale": "spec_" + op}
+    if op == "dft":
+        case["ks"] = [draw(_scale_pos(n)) for _ in range(_pick(draw, [1, 2, 3]))]
+    if op in ("dft", "filt"):
+        # the trace: noise, or impulses only (at the positions below), or both
+        case["xk"] = _pick(draw, ["normal", "spikes", "both"])
+        case["xpos"] = sorted({draw(_scale_pos(n)) for _ in range(_pick(draw, [1, 2, 3, 4, 5]))})
+    if op == "filt":
+        case["filt"] = _pick(draw, ["lp", "hp", "bp", "ident"])
+    return case
+
+
+@st.composite
+def _scale_cos(draw, tier):
+    n = draw(_scale_len())
+    i0 = draw(_scale_pos(n - 1))
+    i1 = draw(_scale_pos(n))
+    if i1 < i0:
+        i0, i1 = i1, i0
+    if i1 == i0:
+        i1 = i0 + 1     # i0 <= n - 2
+    b0 = _uniform(draw, -10 ** 7, 10 ** 7) / 1000
+    b1 = b0 + _pick(draw, [1, 10, 1000, 10 ** 5, 10 ** 7]) * _uniform(draw, 1, 1000) / 1000
+    return {"t": "cos", "b0": b0, "b1": b1, "int": False, "npts": n, "i0": i0, "i1": i1,
+            "arr": draw(st.booleans()), "two_d": _pick(draw, [False, False, False, True]), "seed": draw(_SEED),
+            "lay": _pick(draw, ["C", "C", "strided", "neg"]), "ro": draw(st.booleans()),
+            "rep": _pick(draw, [0, 0, 1]), "xdt": "", "bk": _pick(draw, ["", "", "tuple", "arr_ro"]),
+            "form": _pick(draw, [0, 1, 2]), "scale": "cos"}
+
+
+@st.composite
+def _scale(draw, tier):
+    kind = _pick(draw, ["conv"] * 5 + ["spec"] * 6 + ["cos"] * 2)
+    return draw({"conv": _scale_conv, "spec": _scale_spec, "cos": _scale_cos}[kind](tier))
+
+
 def strategy(tier):
-    return st.one_of(_conv(tier), _conv(tier), _conv(tier), _conv(tier), _conv(tier),
+    main = st.one_of(_conv(tier), _conv(tier), _conv(tier), _conv(tier), _conv(tier),
                      _spec(tier), _spec(tier), _spec(tier), _spec(tier),
                      _optim(tier), _dft2(tier), _cos(tier))
+    return weighted((40, main), (1, _scale(tier)))
 
 
 # ------------------------------------------------------------------------------------------------
@@ -539,10 +745,45 @@ def _guard_memory():
         pass
 
 
+def _near_seam(p):
+    """p is within one sample of a positive multiple of 2^16 or 10^5 (every larger power-of-two / power-of-ten block size
+    is a multiple of one of them)"""
+    return p >= 2 ** 16 - 1 and (min(p % 2 ** 16, -p % 2 ** 16) <= 1 or (p >= 10 ** 5 - 1 and min(p % 10 ** 5, -p % 10 ** 5) <= 1))
+
+
+def _label_scale(case, ctx):
+    """real-data scale class: the size along the processing axis, whether it reaches beyond 2^20 / 10^6 samples, whether the
+    length itself or one of the placed positions sits on / next to a block seam. Non-trivial: longer than 2^16 samples (dense
+    random content is compared sample by sample, so every seam below the length is exercised)."""
+    t = case["t"]
+    if t == "conv":
+        size = max(case["nsx"], case["nsw"])
+        placed = list((case.get("sparse") or {}).get("pos", []))
+    elif t == "spec":
+        size = case["n"]
+        placed = list(case.get("ks", [])) + list(case.get("xpos", [])) + list(case.get("ck", []))
+    else:
+        size = case["npts"]
+        placed = [case.get("i0", 0), case.get("i1", 0)]
+    ctx.label("scale_any", "scale_" + str(case["scale"]), f"scale_2^{max(size, 1).bit_length() - 1}")
+    if size > 2 ** 20:
+        ctx.label("scale_beyond_2^20")
+    if size > 10 ** 6:
+        ctx.label("scale_beyond_1e6")
+    if _near_seam(size) or _near_seam(size - 1):
+        ctx.label("scale_length_at_seam")
+    if any(_near_seam(p) for p in placed):
+        ctx.label("scale_position_at_seam")
+    if size > 2 ** 16:
+        ctx.nontrivial = True
+
+
 def run_case(case, ctx):
     _guard_memory()
     t = case["t"]
     ctx.label("type_" + t)
+    if case.get("scale"):
+        _label_scale(case, ctx)
     if t == "conv":
         _run_conv(case, ctx)
     elif t == "spec":
@@ -566,11 +807,23 @@ def _run_conv(case, ctx):
     lay, layw, ro = case.get("lay", "C"), case.get("layw", "C"), bool(case.get("ro", False))
     form, rep = case.get("form", 0), case.get("rep", 0)
     rng = np.random.default_rng(case["seed"])
-    if xk == "matmat":
+    sparse, only = case.get("sparse"), case.get("only")  # real-data scale class: one operand is a few taps, one mode per case
+    if sparse and xk != "vec":
+        raise ValueError("sparse operands are generated for vectors only")
+
+    def taps(m, d):
+        a = np.zeros(m)
+        a[np.asarray(sparse["pos"], dtype=np.int64)] = np.asarray(sparse["amp"], dtype=float)
+        return _to_dtype(a, d)
+    if sparse and sparse["on"] == "w":
+        w0 = taps(nsw, wdt)
+    elif xk == "matmat":
         w0 = _to_dtype(_content(rng, (case["nr"], nsw), case["content"]), wdt)
     else:
         w0 = _to_dtype(_content(rng, (nsw,), case["content"]), wdt)
-    if xk == "eye":
+    if sparse and sparse["on"] == "x":
+        x0 = taps(nsx, dt)
+    elif xk == "eye":
         x0 = np.eye(nsx, dtype=NPDT[dt])
     elif xk == "vec":
         x0 = _to_dtype(_content(rng, (nsx,), case["content"]), dt)
@@ -605,6 +858,12 @@ def _run_conv(case, ctx):
         E = np.zeros((nsx, L))
         for i in range(nsx):
             E[i, i:i + nsw] = w64
+    elif sparse:
+        # by construction: the dense operand shifted to every tap of the other one, O(taps x n)
+        dense, few = (x64, w64) if sparse["on"] == "w" else (w64, x64)
+        E = np.zeros(L)
+        for p in sparse["pos"]:
+            E[p:p + dense.size] += few[p] * dense
     elif xk == "vec":
         E = np.convolve(x64, w64)
     elif xk == "mat":
@@ -663,11 +922,11 @@ def _run_conv(case, ctx):
     else:
         full_args, full_kw, same_args, same_kw = ("full", False), {}, (), {"mode": "same", "gpu": False}
 
-    g1 = ctx.call(kfull, F.convolve, x, w, *full_args, **full_kw)
-    if g1 is not ctx.CRASH:
+    g1 = ctx.call(kfull, F.convolve, x, w, *full_args, **full_kw) if only in (None, "full") else None
+    if g1 is not ctx.CRASH and g1 is not None:
         check_full(g1, "first call")
-    g2 = ctx.call(ksame, F.convolve, x, w, *same_args, **same_kw)
-    if g2 is not ctx.CRASH:
+    g2 = ctx.call(ksame, F.convolve, x, w, *same_args, **same_kw) if only in (None, "same") else None
+    if g2 is not ctx.CRASH and g2 is not None:
         check_same(g2, "first call")
     for g in (g1, g2):
         if isinstance(g, np.ndarray):
@@ -759,7 +1018,77 @@ def _run_spec(case, ctx):
     if case["basis"]:
         ctx.label("impulse_basis")
     nh = n // 2 + 1
+    ops = case.get("ops")  # real-data scale class: one section per case; None = all of them
 
+    def on(name):
+        return ops is None or name in ops
+    fn = 0.5 / si
+    if case.get("ck"):
+        corners = [kb / (n * si) for kb in case["ck"]]   # corners given as DFT bins (ends of the tapers on chosen bins)
+    else:
+        corners = [v / 1000.0 * fn for v in case["corners"]]
+    if on("fscale"):
+        _check_fscale(case, ctx, F, n, si, n_arg, si_arg, nh, rep, ro, corners)
+    if on("hermit"):
+        _check_hermit(case, ctx, F, rng, n, nh, shape, pos, ndim, axarg, akw, n_arg, lay, ro, rep, spk)
+    if not (on("roundtrip") or on("dft") or on("filters") or on("filt")):
+        return
+    x = _signal(case, rng, n, shape, pos)
+    # the signal in the drawn dtype; x keeps the exact values in float64 for the oracles
+    if dt == "f4":
+        xv = x.astype(np.float32)
+    elif dt == "i2":
+        xv = np.trunc(x * 100).astype(np.int16)
+    else:
+        xv = x
+    x = xv.astype(np.float64)
+    xin = _lay(xv, lay, ro)
+    X = X_in = None
+    if on("roundtrip") or on("dft"):
+        X = np.fft.fft(x, axis=pos)
+        X_in = _lay(X, lay, ro)
+
+    def _roundtrip():
+        return F.fexpand(F.freduce(X_in, **akw), n_arg, **akw)
+    rt = ctx.call("C18.reduce_expand", _roundtrip) if on("roundtrip") else ctx.CRASH
+    if rt is not ctx.CRASH:
+        if ctx.check(_numeric(rt, X.shape), "C18.reduce_expand", lambda: f"round trip shape {np.shape(rt)} != {X.shape}"):
+            xnorm = np.maximum(np.sqrt(np.sum(np.abs(X) ** 2, axis=pos, keepdims=True)), 1e-300)
+            err = float(np.max(np.abs(rt - X) / xnorm))
+            ctx.stat("roundtrip_err_in_eps", err / EPS["f8"])
+            ctx.check(err <= ROUNDTRIP_TOL_EPS * EPS["f8"], "C18.reduce_expand",
+                      lambda: f"fexpand(freduce(fft(x))) differs from fft(x) by {err:.3g} x |fft x|_2 (n={n}, axis={axarg})")
+
+    # (c) explicit DFT
+    if on("dft"):
+        _check_dft(case, ctx, F, x, xv, xin, X, n, pos, ndim, axarg, rng)
+
+    # (d) filters
+    if axarg is None or (axarg >= 0 and (ndim <= 2 or pos >= 1)):
+        if case.get("filt"):
+            _check_filter_ref(case, ctx, F, x, xin, n, si, si_arg, pos, ndim, axarg, akw, corners)
+        elif on("filters"):
+            _check_filters(case, ctx, F, x, xin, n, si, si_arg, pos, ndim, axarg, akw, corners)
+    ctx.check(_same(xin, xv), "C18.signal_input_mutated", lambda: f"dft / lp / hp / bp modified the signal argument "
+                                                                  f"({dt}, layout {lay}, n={n}, axis={axarg})")
+
+
+def _signal(case, rng, n, shape, pos):
+    """the trace(s): identity (impulse basis), noise, or - real-data scale class - impulses at the positions of the case
+    (alone or on top of the noise)"""
+    if case["basis"]:
+        return np.eye(n)
+    xk = case.get("xk", "normal")
+    x = rng.standard_normal(shape) if xk != "spikes" else np.zeros(shape)
+    if xk != "normal":
+        idx = [slice(None)] * len(shape)
+        idx[pos] = np.asarray(case["xpos"], dtype=np.int64)
+        amp = [len(case["xpos"]) if i == pos else 1 for i in range(len(shape))]
+        x[tuple(idx)] += 50.0 * (1.0 + rng.random(len(case["xpos"]))).reshape(amp)
+    return x
+
+
+def _check_fscale(case, ctx, F, n, si, n_arg, si_arg, nh, rep, ro, corners):
     # (a) frequency scale
     k = np.arange(n)
     ks = np.where(k <= n // 2, k, k - n)  # Nyquist bin of an even length stays positive
@@ -798,8 +1127,7 @@ def _run_spec(case, ctx):
     # (a') the response vector behind lp / hp / bp (voltage.fk calls it with the btype of the user: 'highpass', 'lowpass')
     typ = case.get("typ")
     if typ is not None:
-        fn = 0.5 / si
-        c0, c1 = [v / 1000.0 * fn for v in case["corners"][0:2]]
+        c0, c1 = corners[0:2]
         fvec = ref1 if case["seed"] % 2 == 0 else np.abs(ref2)  # one-sided (filters) or |two-sided scale| (fk)
         fin = _lay(fvec, "C", ro)
         B = _box([c0, c1], case.get("bk", "list"))
@@ -817,6 +1145,9 @@ def _run_spec(case, ctx):
         ctx.check(_same(fin, fvec) and _same(B, [c0, c1]), "C18.freq_vector_input_mutated",
                   "_freq_vector modified its frequency vector or its corners")
 
+
+
+def _check_hermit(case, ctx, F, rng, n, nh, shape, pos, ndim, axarg, akw, n_arg, lay, ro, rep, spk):
     # (b) half-spectrum reduction / expansion
     hshape = list(shape)
     hshape[pos] = nh
@@ -860,38 +1191,6 @@ def _run_spec(case, ctx):
                       "fexpand with the default ns=1 does not return the single bin")
     ctx.check(_same(full_in, full), "C18.freduce_input_mutated", "freduce modified its argument")
     ctx.check(_same(S_in, S), "C18.fexpand_input_mutated", "fexpand modified its argument")
-    x = np.eye(n) if case["basis"] else rng.standard_normal(shape)
-    # the signal in the drawn dtype; x keeps the exact values in float64 for the oracles
-    if dt == "f4":
-        xv = x.astype(np.float32)
-    elif dt == "i2":
-        xv = np.trunc(x * 100).astype(np.int16)
-    else:
-        xv = x
-    x = xv.astype(np.float64)
-    xin = _lay(xv, lay, ro)
-    X = np.fft.fft(x, axis=pos)
-    X_in = _lay(X, lay, ro)
-
-    def _roundtrip():
-        return F.fexpand(F.freduce(X_in, **akw), n_arg, **akw)
-    rt = ctx.call("C18.reduce_expand", _roundtrip)
-    if rt is not ctx.CRASH:
-        if ctx.check(_numeric(rt, X.shape), "C18.reduce_expand", lambda: f"round trip shape {np.shape(rt)} != {X.shape}"):
-            xnorm = np.maximum(np.sqrt(np.sum(np.abs(X) ** 2, axis=pos, keepdims=True)), 1e-300)
-            err = float(np.max(np.abs(rt - X) / xnorm))
-            ctx.stat("roundtrip_err_in_eps", err / EPS["f8"])
-            ctx.check(err <= ROUNDTRIP_TOL_EPS * EPS["f8"], "C18.reduce_expand",
-                      lambda: f"fexpand(freduce(fft(x))) differs from fft(x) by {err:.3g} x |fft x|_2 (n={n}, axis={axarg})")
-
-    # (c) explicit DFT
-    _check_dft(case, ctx, F, x, xv, xin, X, n, pos, ndim, axarg, rng)
-
-    # (d) filters
-    if axarg is None or (axarg >= 0 and (ndim <= 2 or pos >= 1)):
-        _check_filters(case, ctx, F, x, xin, n, si, si_arg, pos, ndim, axarg, akw)
-    ctx.check(_same(xin, xv), "C18.signal_input_mutated", lambda: f"dft / lp / hp / bp modified the signal argument "
-                                                                  f"({dt}, layout {lay}, n={n}, axis={axarg})")
 
 
 def _check_dft(case, ctx, F, x, xv, xin, X, n, pos, ndim, axarg, rng):
@@ -902,7 +1201,10 @@ def _check_dft(case, ctx, F, x, xv, xin, X, n, pos, ndim, axarg, rng):
         kscale = kin = None
         ctx.label("dft_all_k")
     else:
-        ks = {0, 1 % n, n // 2, n - 1, (n // 2 + 1) % n} | {int(v) for v in rng.integers(0, n, 4)}
+        if case.get("ks"):
+            ks = {int(v) % n for v in case["ks"]}   # real-data scale class: a few coefficients (each costs n complex numbers)
+        else:
+            ks = {0, 1 % n, n // 2, n - 1, (n // 2 + 1) % n} | {int(v) for v in rng.integers(0, n, 4)}
         kscale = np.array(sorted(ks))
         kin = _lay(kscale, "C", ro)
         ctx.label("dft_kscale_subset")
@@ -958,9 +1260,68 @@ def _check_dft(case, ctx, F, x, xv, xin, X, n, pos, ndim, axarg, rng):
         ctx.check(_same(pin, perm), "C18.dft_scale_mutated", "dft modified xscale")
 
 
-def _check_filters(case, ctx, F, x, xin, n, si, si_arg, pos, ndim, axarg, akw):
-    fn = 0.5 / si
-    c = [v / 1000.0 * fn for v in case["corners"]]
+def _check_filter_ref(case, ctx, F, x, xin, n, si, si_arg, pos, ndim, axarg, akw, c):
+    """Real-data scale class: ONE of lp / hp / bp (or lp + hp) on one long trace. Oracle of lp / hp / bp: the textbook filter
+    itself, numpy's real FFT of the trace times the (1 -) cosine taper at the DFT bin frequencies k / (n si) (product of the
+    two for the band-pass), transformed back - O(n log n), independent of fscale / fcn_cosine / fexpand and of the complex
+    transforms of the implementation. Tolerance: the spectral tolerance of the small cases carried to the time domain
+    (|y - ref|_inf <= |y - ref|_2 <= max|H - H_ref| |x|_2 by Parseval: RESP_TOL |x|_2) plus the FFT rounding allowance of
+    lp + hp (FILT_TOL_EPS eps |x|_2)."""
+    which, dt, bk = case["filt"], case.get("dt", "f8"), case.get("bk", "list")
+    edt = "f4" if dt == "f4" else "f8"
+    tol = FILT_TOL_EPS * EPS[edt]
+    ctx.label("filters", "filter_corners_" + bk, "filter_scale_" + which)
+    norm = np.maximum(np.sqrt(np.sum(x ** 2, axis=pos, keepdims=True)), 1e-300)
+
+    def relerr(a, b):
+        e = float(np.max(np.abs(a - b) / norm))
+        return e if e == e else float("inf")
+
+    if which == "ident":
+        B = _box(c[0:2], bk)
+        lo = ctx.call("C18.filter", F.lp, xin, si_arg, B, **akw)
+        hi = ctx.call("C18.filter", F.hp, xin, si_arg, B, **akw)
+        if lo is ctx.CRASH or hi is ctx.CRASH:
+            return
+        lo = _num(ctx, lo, x.shape, "C18.filter_shape", f"lp of input {x.shape} axis {axarg}")
+        hi = _num(ctx, hi, x.shape, "C18.filter_shape", f"hp of input {x.shape} axis {axarg}")
+        if lo is None or hi is None:
+            return
+        err = relerr(lo + hi, x)
+        ctx.stat("lp_plus_hp_err_in_eps" + ("" if edt == "f8" else "_f4"), err / EPS[edt])
+        ctx.check(err <= tol, "C18.lp_plus_hp",
+                  lambda: f"lp + hp with the same corners differs from the input by {err:.3g} x |x|_2 (n={n}, axis={axarg}, "
+                          f"corners {c[0:2]} as {bk}, si={si_arg!r}, signal {dt})")
+        ctx.check(_same(B, c[0:2]), "C18.filter_corners_mutated", lambda: f"lp / hp modified the corners passed as {bk}")
+        return
+    f1 = np.arange(n // 2 + 1) / (n * si)
+    if which == "lp":
+        b, resp = c[0:2], 1.0 - _taper(f1, c[0], c[1])
+    elif which == "hp":
+        b, resp = c[0:2], _taper(f1, c[0], c[1])
+    else:
+        b, resp = c[0:4], _taper(f1, c[0], c[1]) * (1.0 - _taper(f1, c[2], c[3]))
+    B = _box(b, bk)
+    y = ctx.call("C18.filter", getattr(F, which), xin, si_arg, B, **akw)
+    if y is ctx.CRASH:
+        return
+    y = _num(ctx, y, x.shape, "C18.filter_shape", f"{which} of input {x.shape} axis {axarg}")
+    if y is None:
+        return
+    rs = [1] * ndim
+    rs[pos] = resp.size
+    ref = np.fft.irfft(np.fft.rfft(x, axis=pos) * resp.reshape(rs), n=n, axis=pos)
+    err = relerr(y, ref)
+    ctx.stat("filter_ref_err" + ("" if edt == "f8" else "_f4"), err)
+    ctx.check(err <= RESP_TOL + tol, "C18.filter_response",
+              lambda: f"{which} differs from irfft(rfft(x) x cosine-taper response at the bins k/(n si)) by {err:.3g} x |x|_2 "
+                      f"(tol {RESP_TOL + tol:.3g}); n={n}, axis={axarg}, corners {b} as {bk}, si={si_arg!r}, signal {dt} "
+                      f"{case.get('xk', 'normal')}; first bad sample along the axis "
+                      f"{int(np.argmax(np.max(np.abs(y - ref) / norm, axis=tuple(i for i in range(ndim) if i != pos)) > RESP_TOL + tol))}")
+    ctx.check(_same(B, b), "C18.filter_corners_mutated", lambda: f"{which} modified the corners passed as {bk}")
+
+
+def _check_filters(case, ctx, F, x, xin, n, si, si_arg, pos, ndim, axarg, akw, c):
     rep, dt, bk = case.get("rep", 0), case.get("dt", "f8"), case.get("bk", "list")
     edt = "f4" if dt == "f4" else "f8"  # numpy's FFT of a float32 signal is single precision
     sfx = "" if edt == "f8" else "_f4"
@@ -1205,6 +1566,19 @@ def _run_cos(case, ctx):
         elif xdt == "f4":
             xs = xs.astype(np.float32)
             edt = "f4"
+    elif case.get("i1") is not None:
+        # real-data scale class: npts sorted samples by construction (no sort): sample i0 is the lower bound exactly, sample i1
+        # the upper bound, those before / between / after lie strictly below / inside / above
+        i0, i1 = case["i0"], case["i1"]
+
+        def ramp(m, lo, hi):
+            # m increasing samples strictly inside (lo, hi)
+            return lo + (hi - lo) * (np.arange(1, m + 1) - rng.random(m) * 0.5) / (m + 1)
+        xs = np.concatenate([ramp(i0, b0 - d, b0), [b0], ramp(i1 - i0 - 1, b0, b1), [b1], ramp(npts - i1 - 1, b1, b1 + d)])
+        xs = np.clip(xs, b0 - d, b1 + d)
+        xs[:i0] = np.minimum(xs[:i0], np.nextafter(b0, -np.inf))
+        xs[i0 + 1:i1] = np.clip(xs[i0 + 1:i1], b0, b1)
+        xs[i1 + 1:] = np.maximum(xs[i1 + 1:], np.nextafter(b1, np.inf))
     else:
         xs = np.concatenate([rng.uniform(b0 - d, b1 + d, npts), rng.uniform(b0, b1, npts),
                              b0 + d * rng.uniform(-1e-9, 1e-9, 4), b1 + d * rng.uniform(-1e-9, 1e-9, 4),
